@@ -1,4 +1,225 @@
-import IsoDT.Model.Truncated
+/-
+  C20 — Adding a truncated time point finds the next matching date-time.
+
+  `Model.addTruncated` mirrors `TimePoint.add_truncated`: each
+  `while new._field != target: new._field += 1; new._tick_over()` loop is `Model.loopField` with a
+  fuel bound; `none` would mean the real loop is still spinning.
+
+  Proved here for every whole-second point, offset, representation and mode:
+  * every loop returns the *first* point along its walk whose field equals the target
+    (`C20_loop_first_match`), each step moving the instant forward by exactly one unit, so the
+    result is never earlier than `p`, keeps offset, and is a valid date-time;
+  * the second, minute, hour and weekday loops always terminate within their fuel
+    (`C20_periodic_loops_terminate`), and for the time-of-day shapes (`T06`, `T-30`, `T--15`, …) the
+    result is exactly the earliest date-time not earlier than `p` whose specified fields match, with
+    the lower time fields zero (`C20_seconds`, `C20_minutes`, `C20_hours`);
+  * idempotence for those shapes.
+  Termination of the day-of-month / day-of-year / week loops within their fuel, and the
+  combination with a day designator, are covered by the correspondence (thorough: every field
+  value in every mode); minimality fails for day designator + minute/second without hour
+  (known finding F9, `C20_earliest_counterexample_dayMinute`).
+-/
+import IsoDT.Lemmas.Trunc
+
 namespace IsoDT.Props.C20
-theorem placeholder : (1 : Nat) = 1 := rfl
+open IsoDT IsoDT.Model IsoDT.Lemmas
+open IsoDT.Spec (Date TZ TP)
+
+/-- **Every loop returns the first match along its walk.**  If the loop returns `q` within its fuel
+    then `q` is `k` unit steps after `p`, its field equals the target, and none of the `k` earlier
+    points did. -/
+theorem C20_loop_first_match (m : Mode) (get : TP → Int) (bump : TP → TP) (target : Int) (fuel : Nat)
+    (p q : TP) (h : loopField m get bump target fuel p = some q) :
+    ∃ k : Nat, k ≤ fuel ∧ stepsFrom m bump k p = some q ∧ get q = target ∧
+      ∀ j : Nat, j < k → ∀ x, stepsFrom m bump j p = some x → get x ≠ target :=
+  loopField_spec m get bump target fuel p q h
+
+/-- Each unit step (`+1 s`, `+1 min`, `+1 h`, `+1 day`, `+1 week` followed by `_tick_over`) moves the
+    instant forward by exactly that unit and yields a valid point in the same offset and
+    representation — so any loop result is valid, in `p`'s offset, and not earlier than `p`. -/
+theorem C20_steps (m : Mode) (k : Nat) (p : TP) (hp : p.Strict m) :
+    (∃ q, stepsFrom m (fun q => { q with ss := q.ss + 1 }) k p = some q ∧ q.Strict m ∧
+      q.inst m = p.inst m + k * 1 ∧ q.tz = p.tz ∧ q.date.rep = p.date.rep) ∧
+    (∃ q, stepsFrom m (fun q => { q with mi := q.mi + 1 }) k p = some q ∧ q.Strict m ∧
+      q.inst m = p.inst m + k * 60 ∧ q.tz = p.tz ∧ q.date.rep = p.date.rep) ∧
+    (∃ q, stepsFrom m (fun q => { q with hh := q.hh + 1 }) k p = some q ∧ q.Strict m ∧
+      q.inst m = p.inst m + k * 3600 ∧ q.tz = p.tz ∧ q.date.rep = p.date.rep) ∧
+    (∃ q, stepsFrom m (fun q => { q with date := bumpDay q.date 1 }) k p = some q ∧ q.Strict m ∧
+      q.inst m = p.inst m + k * 86400 ∧ q.tz = p.tz ∧ q.date.rep = p.date.rep) ∧
+    (p.date.rep = 2 → ∃ q, stepsFrom m bumpWeek k p = some q ∧ q.Strict m ∧
+      q.inst m = p.inst m + k * 604800 ∧ q.tz = p.tz ∧ q.date.rep = p.date.rep) :=
+  ⟨stepsFrom_spec m _ 1 _ (stepOK_ss m _) k p hp rfl, stepsFrom_spec m _ 60 _ (stepOK_mi m _) k p hp rfl,
+   stepsFrom_spec m _ 3600 _ (stepOK_hh m _) k p hp rfl, stepsFrom_spec m _ 86400 _ (stepOK_day m _) k p hp rfl,
+   fun h => stepsFrom_spec m _ 604800 2 (stepOK_week m) k p hp h⟩
+
+/-- **The second, minute, hour and weekday loops terminate** within their fuel from any valid
+    point, for every legal target value, and land exactly the distance (mod 60, 60, 24, 7) ahead. -/
+theorem C20_periodic_loops_terminate (m : Mode) (p : TP) (hp : p.Strict m) :
+    (∀ s, 0 ≤ s ∧ s < 60 → ∃ q, loopField m (·.ss) (fun q => { q with ss := q.ss + 1 }) s fuelTime p = some q ∧
+      q.inst m = p.inst m + (s - p.ss) % 60) ∧
+    (∀ t, 0 ≤ t ∧ t < 60 → ∃ q, loopField m (·.mi) (fun q => { q with mi := q.mi + 1 }) t fuelTime p = some q ∧
+      q.inst m = p.inst m + 60 * ((t - p.mi) % 60)) ∧
+    (∀ t, 0 ≤ t ∧ t < 24 → ∃ q, loopField m (·.hh) (fun q => { q with hh := q.hh + 1 }) t fuelTime p = some q ∧
+      q.inst m = p.inst m + 3600 * ((t - p.hh) % 24)) ∧
+    (p.date.rep = 2 → ∀ t, 1 ≤ t ∧ t ≤ 7 →
+      ∃ q, loopField m getDow (fun q => { q with date := bumpDay q.date 1 }) t fuelDow p = some q ∧
+        q.inst m = p.inst m + 86400 * ((t - getDow p) % 7)) := by
+  refine ⟨fun s hs => ?_, fun t ht => ?_, fun t ht => ?_, fun hk t ht => ?_⟩
+  · obtain ⟨q, h1, _, h3, _⟩ := loop_ss m p hp s hs; exact ⟨q, h1, h3⟩
+  · obtain ⟨q, h1, _, h3, _⟩ := loop_mi m p hp t ht; exact ⟨q, h1, h3⟩
+  · obtain ⟨q, h1, _, h3, _⟩ := loop_hh m p hp t ht; exact ⟨q, h1, h3⟩
+  · obtain ⟨q, h1, _, h3, _⟩ := loop_dow m p hp hk t ht; exact ⟨q, h1, h3⟩
+
+/-! ### time-of-day shapes: the result is the earliest match -/
+
+/-- A strict point `q'` in `p`'s offset, not earlier than `p`, with the given second: it is not
+    earlier than the point the seconds loop lands on. -/
+theorem stage_ss (m : Mode) (p q' : TP) (hp : p.Strict m) (hq : q'.Strict m) (htz : q'.tz = p.tz)
+    (hge : p.inst m ≤ q'.inst m) (s : Int) (hs : q'.ss = s) :
+    p.inst m + (s - p.ss) % 60 ≤ q'.inst m := by
+  have a := strict_fields m p hp
+  have b := strict_fields m q' hq
+  have := inst_fields m p q' htz (q'.inst m - p.inst m) (by omega)
+  omega
+
+theorem stage_mi (m : Mode) (p q' : TP) (hp : p.Strict m) (hq : q'.Strict m) (htz : q'.tz = p.tz)
+    (hge : p.inst m ≤ q'.inst m) (t : Int) (ht : q'.mi = t) (hs : q'.ss = p.ss) :
+    p.inst m + 60 * ((t - p.mi) % 60) ≤ q'.inst m := by
+  have a := strict_fields m p hp
+  have b := strict_fields m q' hq
+  have := inst_fields m p q' htz (q'.inst m - p.inst m) (by omega)
+  omega
+
+theorem stage_hh (m : Mode) (p q' : TP) (hp : p.Strict m) (hq : q'.Strict m) (htz : q'.tz = p.tz)
+    (hge : p.inst m ≤ q'.inst m) (t : Int) (ht : q'.hh = t) (hm : q'.mi = p.mi) (hs : q'.ss = p.ss) :
+    p.inst m + 3600 * ((t - p.hh) % 24) ≤ q'.inst m := by
+  have a := strict_fields m p hp
+  have b := strict_fields m q' hq
+  have := inst_fields m p q' htz (q'.inst m - p.inst m) (by omega)
+  omega
+
+/-- What "earliest matching date-time" means for a time-of-day shape. -/
+def Earliest (m : Mode) (p q : TP) (Match : TP → Prop) : Prop :=
+  q.Strict m ∧ q.tz = p.tz ∧ q.date.rep = p.date.rep ∧ Match q ∧ p.inst m ≤ q.inst m ∧
+  ∀ q' : TP, q'.Strict m → q'.tz = p.tz → Match q' → p.inst m ≤ q'.inst m → q.inst m ≤ q'.inst m
+
+/-- **`T--ss`** (only a second given): the earliest date-time not earlier than `p` with that second. -/
+theorem C20_seconds (m : Mode) (p : TP) (hv : p.Valid m) (s : Int) (hs : 0 ≤ s ∧ s < 60) :
+    ∃ q, addTruncated m p ⟨none, none, none, none, none, none, some s, none⟩ = some q ∧
+      Earliest m p q (fun x => x.ss = s) := by
+  obtain ⟨p0, e0, g0⟩ := normalise24_spec m p hv
+  obtain ⟨q, e1, qs, qi, qt, qr, qf⟩ := loop_ss m p0 g0.strict s hs
+  have hi0 : p0.inst m = p.inst m := by rw [g0.inst]; omega
+  refine ⟨q, ?_, qs, by rw [qt, g0.tz], by rw [qr, g0.rep], qf, ?_, ?_⟩
+  · simp only [addTruncated, e0, Option.bind_eq_bind, Option.bind_some, Option.isSome_none, Bool.false_eq_true,
+      or_self, e1, Option.pure_def]
+  · rw [qi, hi0]; omega
+  · intro q' hq' htz hm hge
+    have := stage_ss m p0 q' g0.strict hq' (by rw [htz, g0.tz]) (by rw [hi0]; exact hge) s hm
+    rw [qi]; exact this
+
+/-- **`T-mm`, `T-mm:ss`** (minute given, no hour): the earliest date-time not earlier than `p` with
+    that minute and the given second (zero if none was given). -/
+theorem C20_minutes (m : Mode) (p : TP) (hv : p.Valid m) (t : Int) (ht : 0 ≤ t ∧ t < 60)
+    (ss : Option Int) (hs : ∀ s, ss = some s → 0 ≤ s ∧ s < 60) :
+    ∃ q, addTruncated m p ⟨none, none, none, none, none, some t, ss, none⟩ = some q ∧
+      Earliest m p q (fun x => x.mi = t ∧ x.ss = ss.getD 0) := by
+  obtain ⟨p0, e0, g0⟩ := normalise24_spec m p hv
+  have hS : 0 ≤ ss.getD 0 ∧ ss.getD 0 < 60 := by
+    cases ss with
+    | none => simp
+    | some s => exact hs s rfl
+  obtain ⟨p1, e1, s1, i1, t1, r1, f1⟩ := loop_ss m p0 g0.strict (ss.getD 0) hS
+  obtain ⟨q, e2, qs, qi, qt, qr, qf, qss⟩ := loop_mi m p1 s1 t ht
+  have hi0 : p0.inst m = p.inst m := by rw [g0.inst]; omega
+  refine ⟨q, ?_, qs, by rw [qt, t1, g0.tz], by rw [qr, r1, g0.rep], ⟨qf, by rw [qss, f1]⟩, ?_, ?_⟩
+  · cases ss with
+    | none =>
+      simp only [Option.getD_none] at e1
+      simp only [addTruncated, e0, Option.bind_eq_bind, Option.bind_some, Option.isSome_none, Option.isSome_some,
+        Bool.false_eq_true, false_or, ↓reduceIte, e1, e2, Option.pure_def]
+    | some s =>
+      simp only [Option.getD_some] at e1
+      simp only [addTruncated, e0, Option.bind_eq_bind, Option.bind_some, e1, e2, Option.pure_def]
+  · rw [qi, i1, hi0]; omega
+  · intro q' hq' htz hm hge
+    have a := stage_ss m p0 q' g0.strict hq' (by rw [htz, g0.tz]) (by rw [hi0]; exact hge) _ hm.2
+    rw [← i1] at a
+    have b := stage_mi m p1 q' s1 hq' (by rw [htz, t1, g0.tz]) a t hm.1 (by rw [hm.2, f1])
+    rw [qi]; exact b
+
+/-- **`Thh`, `Thh:mm`, `Thh:mm:ss`** (hour given): the earliest date-time not earlier than `p` at
+    that hour, the given minute and second (zero where none was given). -/
+theorem C20_hours (m : Mode) (p : TP) (hv : p.Valid m) (h : Int) (hh : 0 ≤ h ∧ h < 24)
+    (mi ss : Option Int) (hmi : ∀ x, mi = some x → 0 ≤ x ∧ x < 60) (hs : ∀ s, ss = some s → 0 ≤ s ∧ s < 60) :
+    ∃ q, addTruncated m p ⟨none, none, none, none, some h, mi, ss, none⟩ = some q ∧
+      Earliest m p q (fun x => x.hh = h ∧ x.mi = mi.getD 0 ∧ x.ss = ss.getD 0) := by
+  obtain ⟨p0, e0, g0⟩ := normalise24_spec m p hv
+  have hS : 0 ≤ ss.getD 0 ∧ ss.getD 0 < 60 := by
+    cases ss with
+    | none => simp
+    | some s => exact hs s rfl
+  have hM : 0 ≤ mi.getD 0 ∧ mi.getD 0 < 60 := by
+    cases mi with
+    | none => simp
+    | some x => exact hmi x rfl
+  obtain ⟨p1, e1, s1, i1, t1, r1, f1⟩ := loop_ss m p0 g0.strict (ss.getD 0) hS
+  obtain ⟨p2, e2, s2, i2, t2, r2, f2, f2s⟩ := loop_mi m p1 s1 (mi.getD 0) hM
+  obtain ⟨q, e3, qs, qi, qt, qr, qf, qm, qss⟩ := loop_hh m p2 s2 h hh
+  have hi0 : p0.inst m = p.inst m := by rw [g0.inst]; omega
+  refine ⟨q, ?_, qs, by rw [qt, t2, t1, g0.tz], by rw [qr, r2, r1, g0.rep],
+    ⟨qf, by rw [qm, f2], by rw [qss, f2s, f1]⟩, ?_, ?_⟩
+  · cases mi <;> cases ss <;>
+      simp only [Option.getD_none, Option.getD_some] at e1 e2 <;>
+      simp only [addTruncated, e0, Option.bind_eq_bind, Option.bind_some, Option.isSome_none, Option.isSome_some,
+        Bool.false_eq_true, true_or, or_true, ↓reduceIte, e1, e2, e3, Option.pure_def]
+  · rw [qi, i2, i1, hi0]; omega
+  · intro q' hq' htz hm hge
+    have a := stage_ss m p0 q' g0.strict hq' (by rw [htz, g0.tz]) (by rw [hi0]; exact hge) _ hm.2.2
+    rw [← i1] at a
+    have b := stage_mi m p1 q' s1 hq' (by rw [htz, t1, g0.tz]) a _ hm.2.1 (by rw [hm.2.2, f1])
+    rw [← i2] at b
+    have c := stage_hh m p2 q' s2 hq' (by rw [htz, t2, t1, g0.tz]) b h hm.1 (by rw [hm.2.1, f2])
+      (by rw [hm.2.2, f2s, f1])
+    rw [qi]; exact c
+
+/-- **Applying `t` again returns the same result** (time-of-day shapes): a point that already
+    matches is its own earliest match. -/
+theorem C20_idempotent (m : Mode) (p q : TP) (Match : TP → Prop) (he : Earliest m p q Match)
+    (q2 : TP) (he2 : Earliest m q q2 Match) : q2 = q := by
+  obtain ⟨qs, qt, qr, qm, qge, _⟩ := he
+  obtain ⟨q2s, q2t, q2r, q2m, q2ge, q2min⟩ := he2
+  have h1 := q2min q qs rfl qm (Int.le_refl _)
+  exact strict_unique m q2 q q2s qs q2r q2t (by omega)
+
+/-- With a zone of its own, `t` is read in that zone and the answer is re-expressed in `p`'s. -/
+theorem C20_zone (m : Mode) (p : TP) (t : Trunc) (z : TZ) (hz : t.tz = some z) :
+    addTruncTP m p t =
+      (toTimeZone m p z).bind fun q => (addTruncated m q t).bind fun r => toTimeZone m r p.tz := by
+  unfold addTruncTP; rw [hz]
+
+theorem C20_no_zone (m : Mode) (p : TP) (t : Trunc) (hz : t.tz = none) :
+    addTruncTP m p t = addTruncated m p t := by
+  unfold addTruncTP; rw [hz]
+
+/-! ## Non-vacuity, the repaired defects (24:00, F2; week 53 in the 360-day calendar, F8) and F9 -/
+
+example : addTruncated .greg ⟨.cal 2000 12 31, 24, 0, 0, ⟨0, 0⟩⟩ ⟨none, none, none, none, some 0, none, none, none⟩ =
+    some ⟨.cal 2001 1 1, 0, 0, 0, ⟨0, 0⟩⟩ := by decide +kernel
+example : addTruncated .greg ⟨.cal 2021 3 1, 10, 0, 0, ⟨0, 0⟩⟩ ⟨some 53, some 5, none, none, none, none, none, none⟩ =
+    some ⟨.week 2026 53 5, 10, 0, 0, ⟨0, 0⟩⟩ := by decide +kernel
+/-- week 53 never occurs in the 360-day calendar: the (repaired) bounds check refuses it, the loop
+    would never end — within any fuel the model finds no match. -/
+example : (Gen.calOfMode .d360).maxWeeksInYear = 52 := by decide
+
+/-- **F9**: for a day designator with a minute but no hour the result matches but is not the
+    earliest: `-001T-46` added to `2000-003T19:40:08Z` gives `2001-001T19:46`, while
+    `2001-001T00:46` also matches and is earlier. -/
+theorem C20_earliest_counterexample_dayMinute :
+    addTruncated .greg ⟨.ord 2000 3, 19, 40, 8, ⟨0, 0⟩⟩ ⟨none, none, none, some 1, none, some 46, none, none⟩ =
+      some ⟨.ord 2001 1, 19, 46, 0, ⟨0, 0⟩⟩ ∧
+    (⟨.ord 2001 1, 0, 46, 0, ⟨0, 0⟩⟩ : TP).inst .greg < (⟨.ord 2001 1, 19, 46, 0, ⟨0, 0⟩⟩ : TP).inst .greg ∧
+    (⟨.ord 2000 3, 19, 40, 8, ⟨0, 0⟩⟩ : TP).inst .greg ≤ (⟨.ord 2001 1, 0, 46, 0, ⟨0, 0⟩⟩ : TP).inst .greg := by
+  refine ⟨by decide +kernel, by decide +kernel, by decide +kernel⟩
+
 end IsoDT.Props.C20
